@@ -154,13 +154,33 @@ Proof.
     rewrite <- A, S. reflexivity.
 Qed.
 
-Lemma pointer_rfc6901_partial d p :
+(* the legacy resolver (sentinel) was RFC 6901 outside its lenient region *)
+Lemma legacy_pointer_rfc6901_partial d p :
   valid_escapes p = true -> short_tokens p = true -> lenient_hit d p = false ->
-  resolve_pointer d p = of_opt (rfc6901 d p).
+  resolve_pointer_int_lenient d p = of_opt (rfc6901 d p).
 Proof.
-  intros Hv Hs Hl. unfold resolve_pointer, rfc6901, lenient_hit in *. destruct p as [|c p]; [reflexivity|].
+  intros Hv Hs Hl. unfold resolve_pointer_int_lenient, rfc6901, lenient_hit in *. destruct p as [|c p]; [reflexivity|].
   destruct (N.eqb c SLASH) eqn:E; [|reflexivity]. cbn [andb] in *. rewrite Hv.
   f_equal. apply walk_agree; assumption.
+Qed.
+
+(* ---------- the current resolver (commits 5f4626e6, 6e969657) is RFC 6901 whenever the escapes are valid ---------- *)
+Lemma step_impl_agree target t : step_impl target t = w_of_opt (step_rfc target t).
+Proof.
+  destruct target; try reflexivity. cbn [step_impl step_rfc].
+  destruct (canonical_index t) as [i|]; [|reflexivity]. destruct (i <? Z.of_nat (length l))%Z; reflexivity.
+Qed.
+
+Lemma walk_w_agree toks : forall d, walk_w d toks = w_of_opt (walk step_rfc d toks).
+Proof.
+  induction toks as [|t r IH]; intros d; [reflexivity|].
+  cbn [walk_w walk]. rewrite (step_impl_agree d t). destruct (step_rfc d t) as [x|]; cbn [w_of_opt]; [apply IH|reflexivity].
+Qed.
+
+Lemma pointer_rfc6901_partial d p : valid_escapes p = true -> resolve_pointer d p = w_of_opt (rfc6901 d p).
+Proof.
+  intros Hv. unfold resolve_pointer, rfc6901. destruct p as [|c p]; [reflexivity|].
+  destruct (N.eqb c SLASH) eqn:E; [|reflexivity]. cbn [andb]. rewrite Hv. apply walk_w_agree.
 Qed.
 
 (* witnesses *)
@@ -173,22 +193,35 @@ Definition p_under : str := [47;49;95;48].             (* /1_0 *)
 Definition d_tilde : json := JObj [([97;126;50], JInt 1)].
 Definition p_tilde : str := [47;97;126;50].            (* /a~2 *)
 
-Lemma pointer_refuted_neg : resolve_pointer d_a123 p_neg <> of_opt (rfc6901 d_a123 p_neg).
+(* sentinel witnesses: the int()-lenient resolver is not RFC 6901 *)
+Lemma legacy_refuted_neg : resolve_pointer_int_lenient d_a123 p_neg <> of_opt (rfc6901 d_a123 p_neg).
 Proof. vm_compute. discriminate. Qed.
-Lemma pointer_refuted_space : resolve_pointer d_10_20 p_space <> of_opt (rfc6901 d_10_20 p_space).
+Lemma legacy_refuted_space : resolve_pointer_int_lenient d_10_20 p_space <> of_opt (rfc6901 d_10_20 p_space).
 Proof. vm_compute. discriminate. Qed.
-Lemma pointer_refuted_under : resolve_pointer d_0_19 p_under <> of_opt (rfc6901 d_0_19 p_under).
+Lemma legacy_refuted_under : resolve_pointer_int_lenient d_0_19 p_under <> of_opt (rfc6901 d_0_19 p_under).
 Proof. vm_compute. discriminate. Qed.
-Lemma pointer_refuted_tilde : valid_escapes p_tilde = false /\ resolve_pointer d_tilde p_tilde <> of_opt (rfc6901 d_tilde p_tilde).
+Lemma legacy_refuted_regions : lenient_hit d_a123 p_neg = true /\ lenient_hit d_10_20 p_space = true /\ lenient_hit d_0_19 p_under = true.
+Proof. repeat split; vm_compute; reflexivity. Qed.
+(* ... and the current resolver IS, on the same witnesses *)
+Lemma repaired_on_legacy_witnesses :
+  resolve_pointer d_a123 p_neg = WUnres /\ resolve_pointer d_10_20 p_space = WUnres /\ resolve_pointer d_0_19 p_under = WUnres.
+Proof. repeat split; vm_compute; reflexivity. Qed.
+
+(* what remains outside RFC 6901: an invalid escape is taken literally *)
+Lemma pointer_refuted_tilde : valid_escapes p_tilde = false /\ resolve_pointer d_tilde p_tilde <> w_of_opt (rfc6901 d_tilde p_tilde).
 Proof. split; [reflexivity|]. vm_compute. discriminate. Qed.
-Lemma pointer_refuted_regions : lenient_hit d_a123 p_neg = true /\ lenient_hit d_10_20 p_space = true /\ lenient_hit d_0_19 p_under = true.
+
+(* an overlong canonical index is simply out of range (ValueError caught again since commit 6e969657) *)
+Definition p_long : str := SLASH :: repeat 49 (N.to_nat 4301).      (* / followed by 4301 times the digit 1 *)
+Lemma pointer_long_index_unresolvable :
+  valid_escapes p_long = true /\ short_tokens p_long = false /\ resolve_pointer d_10_20 p_long = WUnres /\ rfc6901 d_10_20 p_long = None.
 Proof. repeat split; vm_compute; reflexivity. Qed.
 
 (* non-vacuity: a pointer with escapes and a canonical index inside the region *)
 Example pointer_partial_nonvacuous :
   let d := JObj [([97;47;98], JArr [JInt 5; JObj [([109;126;110], JInt 9)]])] in
   let p := [47;97;126;49;98;47;49;47;109;126;48;110] in     (* /a~1b/1/m~0n *)
-  valid_escapes p = true /\ short_tokens p = true /\ lenient_hit d p = false /\ resolve_pointer d p = VJ (JInt 9).
+  valid_escapes p = true /\ resolve_pointer d p = WOk (JInt 9).
 Proof. repeat split; vm_compute; reflexivity. Qed.
 
 (* ---------- status-code filters ---------- *)
@@ -763,14 +796,12 @@ Proof.
       match goal with |- match ?X with _ => _ end = _ => destruct X as [[]|]; try reflexivity; apply extract_agree end.
   - destruct p as [p|]; cbn [option_map eval_node denote denote_ptr].
     + cbn [ptr_strict] in Hp. destruct (c_body cx) as [doc| | |]; try reflexivity.
-      apply andb_true_iff in Hp. destruct Hp as [Hp Hs]. apply andb_true_iff in Hp. destruct Hp as [Hl Hv].
-      apply negb_true_iff in Hl. cbn [tl]. f_equal. apply pointer_rfc6901_partial; assumption.
+      cbn [tl]. rewrite (pointer_rfc6901_partial _ _ Hp). destruct (rfc6901 doc p); reflexivity.
     + destruct (c_body cx); reflexivity.
   - cbn [eval_node denote]. destruct (assoc_get (lower_ascii name) (r_headers cx)) as [[|v vs]|]; try reflexivity. apply extract_agree.
   - cbn [eval_node denote]. destruct (r_body cx) as [doc|] eqn:B; [|reflexivity]. destruct p as [p|]; cbn [option_map denote_ptr]; [|reflexivity].
     cbn [ptr_strict] in Hp. rewrite B in Hp.
-    apply andb_true_iff in Hp. destruct Hp as [Hp Hs]. apply andb_true_iff in Hp. destruct Hp as [Hl Hv].
-    apply negb_true_iff in Hl. cbn [tl]. f_equal. apply pointer_rfc6901_partial; assumption.
+    cbn [tl]. rewrite (pointer_rfc6901_partial _ _ Hp). destruct (rfc6901 doc p); reflexivity.
 Qed.
 
 Lemma eval_denotes_partial rx_ok rx_extract cx e :
